@@ -207,3 +207,78 @@ func asciiLower(s string) string {
 	}
 	return string(b)
 }
+
+func bytesOfSlice(v Value) StrAlt {
+	s := v.(*SliceVal)
+	bs := make([]*Term, s.Len)
+	for i := range bs {
+		bs[i] = s.At(i).(*Term)
+	}
+	sv := mkStrBytes(bs)
+	return sv.Alts[0]
+}
+
+// leaf assembly routines of internal/bytealg, usable on concrete and symbolic bytes
+func registerBytealg(e *Engine) {
+	idx := func(x *Exec, s StrAlt, c *Term, last bool) Value {
+		if last {
+			for i := s.Len() - 1; i >= 0; i-- {
+				if x.decide(tEq(s.Byte(i), c)) {
+					return mkBV(64, uint64(i))
+				}
+			}
+		} else {
+			for i := 0; i < s.Len(); i++ {
+				if x.decide(tEq(s.Byte(i), c)) {
+					return mkBV(64, uint64(i))
+				}
+			}
+		}
+		return mkBV(64, ^uint64(0))
+	}
+	reg := func(name string, f func(x *Exec, a []Value) Value) {
+		e.intrinsics["internal/bytealg."+name] = func(x *Exec, fn *ssa.Function, a []Value) (Value, bool) { return f(x, a), true }
+	}
+	reg("IndexByteString", func(x *Exec, a []Value) Value { return idx(x, x.pickAlt(a[0].(*StrVal)), a[1].(*Term), false) })
+	reg("LastIndexByteString", func(x *Exec, a []Value) Value { return idx(x, x.pickAlt(a[0].(*StrVal)), a[1].(*Term), true) })
+	reg("IndexByte", func(x *Exec, a []Value) Value { return idx(x, bytesOfSlice(a[0]), a[1].(*Term), false) })
+	reg("LastIndexByte", func(x *Exec, a []Value) Value { return idx(x, bytesOfSlice(a[0]), a[1].(*Term), true) })
+	reg("IndexString", func(x *Exec, a []Value) Value {
+		return mkBV(64, uint64(int64(x.symIndex(x.pickAlt(a[0].(*StrVal)), x.pickAlt(a[1].(*StrVal)), 0))))
+	})
+	reg("Index", func(x *Exec, a []Value) Value {
+		return mkBV(64, uint64(int64(x.symIndex(bytesOfSlice(a[0]), bytesOfSlice(a[1]), 0))))
+	})
+	cnt := func(x *Exec, s StrAlt, c *Term) Value {
+		n := 0
+		for i := 0; i < s.Len(); i++ {
+			if x.decide(tEq(s.Byte(i), c)) {
+				n++
+			}
+		}
+		return mkBV(64, uint64(n))
+	}
+	reg("CountString", func(x *Exec, a []Value) Value { return cnt(x, x.pickAlt(a[0].(*StrVal)), a[1].(*Term)) })
+	reg("Count", func(x *Exec, a []Value) Value { return cnt(x, bytesOfSlice(a[0]), a[1].(*Term)) })
+	reg("Equal", func(x *Exec, a []Value) Value { return altEq(bytesOfSlice(a[0]), bytesOfSlice(a[1])) })
+	reg("Compare", func(x *Exec, a []Value) Value {
+		l, r := bytesOfSlice(a[0]), bytesOfSlice(a[1])
+		if x.decide(altLess(l, r)) {
+			return mkBV(64, ^uint64(0))
+		}
+		if x.decide(altLess(r, l)) {
+			return mkBV(64, 1)
+		}
+		return mkBV(64, 0)
+	})
+	e.intrinsics["strings.Compare"] = func(x *Exec, fn *ssa.Function, a []Value) (Value, bool) {
+		l, r := x.pickAlt(a[0].(*StrVal)), x.pickAlt(a[1].(*StrVal))
+		if x.decide(altLess(l, r)) {
+			return mkBV(64, ^uint64(0)), true
+		}
+		if x.decide(altLess(r, l)) {
+			return mkBV(64, 1), true
+		}
+		return mkBV(64, 0), true
+	}
+}
